@@ -81,11 +81,13 @@ pub struct WsGenOpts {
     pub long_last_line_chance: u32,
     /// DOS line ends in all files and patch files of the workspace
     pub allow_crlf: bool,
+    /// a path that was a file becomes a directory later in the series (open known finding of C09)
+    pub allow_path_kind_change: bool,
 }
 
 impl Default for WsGenOpts {
     fn default() -> Self {
-        WsGenOpts { max_patches: 6, max_files: 8, fail_chance: 3, allow_reverse: true, allow_rename: true, allow_mode: true, allow_strip: true, nasty_names: false, allow_dup_entries: true, allow_dir_races: true, max_lines: 30, strict_reject_dirs: false, alt_name_chance: 0, allow_misordered: false, second_failure: false, allow_hard_error: false, long_last_line_chance: 0, allow_crlf: true }
+        WsGenOpts { max_patches: 6, max_files: 8, fail_chance: 3, allow_reverse: true, allow_rename: true, allow_mode: true, allow_strip: true, nasty_names: false, allow_dup_entries: true, allow_dir_races: true, max_lines: 30, strict_reject_dirs: false, alt_name_chance: 0, allow_misordered: false, second_failure: false, allow_hard_error: false, long_last_line_chance: 0, allow_crlf: true, allow_path_kind_change: false }
     }
 }
 
@@ -256,7 +258,14 @@ pub fn gen_ws(ch: &mut Chooser, cx: &mut CaseCtx, o: &WsGenOpts) -> WsCase {
                     // sometimes re-create a file that an earlier patch deleted (or renamed away)
                     let gone: Vec<String> = ever.iter().filter(|p| !next.files.contains_key(*p) && !touched.contains(*p) && !path_conflicts(&next, p, &[])).cloned().collect();
                     let recreate = !gone.is_empty() && ch.chance(1, 4);
-                    let path = if recreate && !k9_open {
+                    let below_former_file = o.allow_path_kind_change && !gone.is_empty() && !failing_here && ch.chance(1, 3);
+                    if below_former_file && !cx.feature("KF-C09-path-changes-between-file-and-directory") {
+                        cx.exclude("KF-C09-path-changes-between-file-and-directory");
+                    }
+                    let path = if below_former_file && cx.feature("KF-C09-path-changes-between-file-and-directory") {
+                        feat.push("file-becomes-directory".into());
+                        format!("{}/inner.txt", gone[ch.below(gone.len())])
+                    } else if recreate && !k9_open {
                         feat.push("recreate-after-delete".into());
                         gone[ch.below(gone.len())].clone()
                     } else {
